@@ -252,6 +252,14 @@ class FragDomain(Domain):
     def call(self, node, fval, args, kwargs, state):
         name = call_name(node)
         ok = lambda v, s=state: [("ok", v, s)]
+        if name == "self.check_key" and self.prog is not None:
+            # Client.check_key is a thin wrapper: interpreted, so that what it does with its prefix argument (e.g. a
+            # default it resolves itself) is seen; the summary below applies to check_key_helper inside it
+            m = self.prog.cls("Client").methods.get("check_key")
+            if m is not None and not any(fr["fn"] is m for fr in self.frames):
+                res = self.inline(node, m, args, kwargs, state)
+                if res is not None and any(r[0] == "ok" and isinstance(r[1], Key) for r in res):
+                    return [r for r in res if r[0] == "ok"]
         if name in ("self.check_key", "check_key_helper"):
             self._sanitizer(node, state, "check_key")
             src = args[0] if args else kwargs.get("key", TOP)
